@@ -35,7 +35,7 @@ def judge(chk, trace, mm):
             key = "float"
         else:
             key = f"{kind}:{sorted(d['ports'])[0] if d.get('ports') else ''}"
-        chk.classify(key, f"{kind}: {str(d)[:400]}", run_of(trace, m[1]), extra=m)
+        chk.classify(key, f"{kind}: {str(d)[:400]}", lambda m=m, trace=trace: run_of(trace, m[1]), extra=m)
 
 
 def run(tier, seed):
